@@ -48,6 +48,12 @@ ASSUMPTIONS = [
 
 BEHS = ["Pass", "DropAll", "Dup", "Expand", "DropOdd", "Hold", "HoldEmit", "HoldRev", "Barrier",
         "Count", "AddCount"]
+# callbacks written the way the developer README allows but that expose aliasing in the processor: a stage that re-uses ONE
+# list object for its result, and a filter that returns a shared module-level "nothing".  Same semantics as Pass / DropAll
+# (the model has no notion of list identity), so they are encoded as Pass / DropAll in the Coq term.
+ALIAS = {"PassShared": "Pass", "DropShared": "DropAll"}
+IMPL_BEHS = BEHS + list(ALIAS)
+_NOTHING = []
 HOLDS = {"Hold", "HoldEmit", "HoldRev", "Barrier"}
 
 
@@ -81,7 +87,14 @@ def run_impl_raw(graph, inputs, intermediate=None):
             return list(reversed(h)) if self.rev else h
 
     def ev(n):
+        # negative numbers are metadata events (ph "M", with ts and args so that sanity_check keeps them): nothing in the
+        # pipeline mechanics may treat them differently from slices
+        if n < 0:
+            return {"ph": "M", "ts": n, "pid": 0, "tid": 0, "name": "process_name", "args": {"name": "x"}}
         return {"ph": "X", "ts": n, "dur": 1, "pid": 0, "tid": 0, "name": "e", "args": {}}
+
+    shared = {}
+    _NOTHING.clear()
 
     def mkcb(k, beh):
         def cb(event, ctx):
@@ -91,6 +104,13 @@ def run_impl_raw(graph, inputs, intermediate=None):
                 return [event]
             if beh == "DropAll":
                 return []
+            if beh == "PassShared":
+                buf = shared.setdefault(k, [])
+                buf.clear()
+                buf.append(event)
+                return buf
+            if beh == "DropShared":
+                return _NOTHING
             if beh == "Dup":
                 return [event, event]
             if beh == "Expand":
@@ -164,9 +184,9 @@ def ref_run(graph, inputs):
     def call(k, b, c, n):
         s = state(b, c)
         log.append([0, k + 1, n])
-        if b == "Pass":
+        if b in ("Pass", "PassShared"):
             return [n]
-        if b == "DropAll":
+        if b in ("DropAll", "DropShared"):
             return []
         if b == "Dup":
             return [n, n]
@@ -234,7 +254,7 @@ def assign_cells(behs, rng=None):
 def gen_cases(ctx):
     cases = []
     maxlen = ctx.pick(3, 4)
-    ins = [[], [1], [1, 2], [2, 3, 4]] if ctx.quick() else [[], [1], [2], [1, 2], [2, 1], [2, 3, 4], [1, 1, 2]]
+    ins = [[], [1], [1, 2], [2, -1, 4]] if ctx.quick() else [[], [1], [2], [1, 2], [2, 1], [2, -1, 4], [1, 1, 2], [-2, 3]]
     for ln in range(0, maxlen + 1):
         for behs in itertools.product(BEHS, repeat=ln):
             g = assign_cells(behs)
@@ -244,7 +264,7 @@ def gen_cases(ctx):
     r = ctx.rng
     for _ in range(ctx.pick(1500, 40000)):
         ln = r.randint(1, 12)
-        behs = [r.choice(BEHS) for _ in range(ln)]
+        behs = [r.choice(IMPL_BEHS) for _ in range(ln)]
         # up to 4 barriers
         while behs.count("Barrier") > 4:
             behs[behs.index("Barrier")] = r.choice(["Pass", "Hold", "Dup"])
@@ -252,7 +272,7 @@ def gen_cases(ctx):
         while sum(b in ("Dup", "Expand") for b in behs) > 3:
             behs[[k for k, b in enumerate(behs) if b in ("Dup", "Expand")][0]] = r.choice(["Pass", "DropOdd", "Count"])
         g = assign_cells(behs, r)
-        i = [r.randint(0, 9) for _ in range(r.randint(0, 20))]
+        i = [r.randint(-3, 9) for _ in range(r.randint(0, 20))]
         cases.append((g, i, r.random() < 0.1))
     return cases, n_exh
 
@@ -267,7 +287,7 @@ def nontrivial(g, i):
 
 
 def coq_graph(g):
-    return enc.L([enc.P(b, enc.N(c)) for b, c in g])
+    return enc.L([enc.P(ALIAS.get(b, b), enc.N(c)) for b, c in g])
 
 
 def coq_case(g, i):
@@ -362,9 +382,9 @@ def search(ctx, res, broken):
     for _ in range(ctx.pick(15000, 100000)):
         if time.time() - t0 > ctx.pick(60, 600):
             break
-        behs = [r.choice(BEHS) for _ in range(r.randint(1, 6))]
+        behs = [r.choice(IMPL_BEHS) for _ in range(r.randint(1, 6))]
         g = assign_cells(behs, r)
-        i = [r.randint(0, 9) for _ in range(r.randint(0, 8))]
+        i = [r.randint(-3, 9) for _ in range(r.randint(0, 8))]
         if run_impl(g, i) != ref_run(g, i):
             return [shrink({"input": {"graph": g, "events": i},
                             "signature": {"kind": "pipeline_log_differs_from_reference"}})]
